@@ -85,3 +85,39 @@ Theorem C17_scalar_multiple :
     wf A -> i < m_n A -> j < m_n A -> dn (cmul Rops A c) i j = (dn A i j * c)%R.
 Proof. exact cmul_dense. Qed.
 Print Assumptions C17_scalar_multiple.
+
+(* ---------------- the remaining operators (proofs/MatrixMixed.v) ---------------- *)
+Require Import IVP.proofs.MatrixMixed.
+
+(* any two DIFFERENT storage kinds (Identity/Full/Banded in either order): a Full result holding the entrywise result *)
+Theorem C17_mixed_storage_plus_minus :
+  forall sub_ (A B C : rmatrix) i j,
+    wf A -> wf B -> mixed (m_st A) (m_st B) -> addsub Rops sub_ A B = Some C ->
+    (i < m_n A)%nat -> (j < m_n A)%nat ->
+    m_st C = SFull /\ get Rops C i j = Some (rop sub_ (dn A i j) (dn B i j)).
+Proof. exact addsub_mixed. Qed.
+Print Assumptions C17_mixed_storage_plus_minus.
+
+Theorem C17_identity_plus_minus_identity :
+  forall sub_ (A B C : rmatrix) i j,
+    wf A -> wf B -> m_st A = SIdentity -> m_st B = SIdentity -> addsub Rops sub_ A B = Some C ->
+    (i < m_n A)%nat -> (j < m_n A)%nat ->
+    get Rops C i j = Some (rop sub_ (dn A i j) (dn B i j)).
+Proof. exact addsub_identity_identity. Qed.
+Print Assumptions C17_identity_plus_minus_identity.
+
+(* component_add / component_sub for every storage: every entry -- also the implicit ones -- receives the scalar *)
+Theorem C17_scalar_add_sub :
+  forall sub_ (A : rmatrix) c i j,
+    wf A -> (i < m_n A)%nat -> (j < m_n A)%nat ->
+    get Rops (caddsub Rops sub_ A c) i j = Some (rop sub_ (dn A i j) c).
+Proof. exact caddsub_dense. Qed.
+Print Assumptions C17_scalar_add_sub.
+
+(* is_identity agrees with the dense definition, for every storage *)
+Theorem C17_is_identity_iff_dense_identity :
+  forall A : rmatrix, wf A ->
+    (is_identity Rops A = Some true <->
+     forall i j, (i < m_n A)%nat -> (j < m_n A)%nat -> dn A i j = if (i =? j)%nat then 1%R else 0%R).
+Proof. exact is_identity_iff. Qed.
+Print Assumptions C17_is_identity_iff_dense_identity.
